@@ -18,7 +18,8 @@
 EXTENDS Integers, Sequences, TLC, Json
 
 VARIABLES Op,        \* "send" | "sendclose" | "free"    (chosen initially)
-          Ending,    \* "drain" | "drop"                  (chosen initially)
+          Ending,    \* "drain" | "drop" | "halfclose" (the peer closes only its sending side, without reading: the receive
+                     \* loop ends while the send loop sits in a socket write; the connection has to close all the same)
           Cause,     \* what blocks: "queue" (write queue full) | "window" (the channel's send window is used up: only Send
                      \* waits for it, with the caller's context AND the channel's, channel_state.go decrementSendWindow);
                      \* "drain" then stands for the peer's window update
@@ -32,7 +33,7 @@ VARIABLES Op,        \* "send" | "sendclose" | "free"    (chosen initially)
 
 vars == <<Op, Ending, Cause, qfull, dropped, chClosed, phase, result, enq, sched>>
 
-Init == /\ Op \in {"send", "sendclose", "free"} /\ Ending \in {"drain", "drop"}
+Init == /\ Op \in {"send", "sendclose", "free"} /\ Ending \in {"drain", "drop", "halfclose"}
         /\ Cause \in {"queue", "window"} /\ (Cause = "window" => Op = "send")
         /\ qfull = TRUE /\ dropped = FALSE /\ chClosed = FALSE /\ phase = "none" /\ result = "none" /\ enq = 0
         /\ sched = <<>>
@@ -78,13 +79,13 @@ Drain ==
 
 \* the connection is dropped: the queue is closed, every channel ends
 Drop ==
-    /\ Ending = "drop" /\ ~dropped
+    /\ Ending \in {"drop", "halfclose"} /\ ~dropped
     /\ dropped' = TRUE /\ chClosed' = TRUE
     /\ IF phase = "waiting"
        THEN phase' = "returned" /\ result' = (IF Op = "free" THEN "ok" ELSE "closed")
        ELSE UNCHANGED <<phase, result>>
     /\ UNCHANGED <<qfull, enq>>
-    /\ Step("drop")
+    /\ Step(Ending)
 
 Next == Start \/ PeerClose \/ Drain \/ Drop
 
